@@ -87,12 +87,9 @@ let mix x = let x = x + 5 in
   h1 := (!h1 * 1000003 + x) mod m1; h2 := (!h2 * 998244353 + x) mod m2
 
 let cleanup fx elsize nh (s : state) : unit =
-  let s = ref s in
-  for i = 0 to nh - 1 do
-    let ((s1, c1), _) = cstep fx !tab elsize (!s, !pool) (ODestroy (ni i)) in
-    pool := c1; s := s1
-  done;
-  pool := compact_c !pool
+  (* the destructors of all handles, as one run of Model.crun *)
+  let (_, c1) = crun fx !tab elsize (s, !pool) (List.init nh (fun i -> ODestroy (ni i))) in
+  pool := compact_c c1
 
 (* run ops from fresh handles; returns (Some defect code at index k | None, state) *)
 let exec fx elsize nh (ops : op list) : (int * int) option * state =
@@ -207,7 +204,15 @@ let cmd_alloc fixed0 (toks : string list) : string =
       st := s1;
       Buffer.add_string b (Printf.sprintf "%s%s " (show_p s1.p_a p) (show_df d))
     | _ -> failwith ("bad alloc op " ^ t)) toks;
-  apool := !st.p_a;
+  (* the same token list as one run of Model.prun: its pool is the one printed below *)
+  let pops = List.map (fun t ->
+    let args = List.map int_of_string (String.split_on_char ',' (String.sub t 1 (String.length t - 1))) in
+    match t.[0], args with
+    | 'a', [sz] -> PAlloc (zi sz) | 'f', [k] -> PFree (ni k) | 'r', [k; o; n] -> PResize (ni k, zi o, zi n)
+    | _ -> failwith ("bad alloc op " ^ t)) toks in
+  let st2 = prun fixed0 !tab { p_a = !apool; p_slots = [] } pops in
+  if st2.p_slots <> !st.p_slots then Buffer.add_string b "PRUN-DIFFERS ";
+  apool := st2.p_a;
   (* free-list population of every class that is non-empty *)
   let classes = List.sort_uniq compare (List.map (fun (k, _) -> iofn k) !apool.a_free) in
   List.iter (fun k -> let l = tabfree !apool (ni k) in
